@@ -264,6 +264,20 @@ def kernel_run(cases, tag='k'):
 
 # --------------------------------------------------------------------------- obligations
 
+def coqchk(prop):
+    """coqchk -o on the compiled Properties/<prop>.vo (thorough tier): exit status, axioms, unsafe features"""
+    t0 = time.time()
+    rc, out = sh('timeout 2400 coqchk -silent -o -Q . Mido Mido.Properties.%s' % prop, cwd=COQ, timeout=2500)
+    summ = out[out.find('CONTEXT SUMMARY'):] if 'CONTEXT SUMMARY' in out else out[-1500:]
+    fields = {}
+    for key, label in (('axioms', 'Axioms'), ('type_in_type', 'relying on type-in-type'), ('unsafe_fixpoints', 'relying on unsafe (co)fixpoints'),
+                       ('assumed_positivity', 'positivity is assumed')):
+        m = re.search(r'\* [^\n]*%s: *(.*?)(?=\n\s*\n|\n\* |\Z)' % re.escape(label), summ, re.S)
+        fields[key] = m.group(1).strip() if m else '?'
+    ok = rc == 0 and all(v == '<none>' for v in fields.values())
+    return {'ok': ok, 'exit': rc, 'seconds': round(time.time() - t0, 1), 'summary': summ.strip(), **fields}
+
+
 def obligations(prop, build_info, extra_files=()):
     """Compile Properties/<prop>.v afresh, collect its theorems and their Print Assumptions output.
     Returns dict(obligations, discharged, theorems=[(name, closed?)], problems=[...])."""
